@@ -1,0 +1,48 @@
+//go:build verif
+
+package cmap
+
+import (
+	"seehuhn.de/go/sfnt/glyph"
+	"seehuhn.de/go/sfnt/mac"
+)
+
+// VerifDecode12 runs the format 12 decoder.
+func VerifDecode12(in []byte) (map[uint32]glyph.ID, error) {
+	st, err := decodeFormat12(in, nil)
+	if err != nil {
+		return nil, err
+	}
+	return st.(Format12), nil
+}
+
+// VerifDecode0 runs the format 0 decoder.
+func VerifDecode0(in []byte) (*Format0, error) {
+	st, err := decodeFormat0(in, nil)
+	if err != nil {
+		return nil, err
+	}
+	return st.(*Format0), nil
+}
+
+// VerifDecode6 runs the format 6 decoder, with the identity code mapping or MacRoman.
+func VerifDecode6(in []byte, macRoman bool) (map[uint16]glyph.ID, error) {
+	var c2r func(int) rune
+	if macRoman {
+		c2r = func(code int) rune { return mac.DecodeOne(byte(code)) }
+	}
+	st, err := decodeFormat6(in, c2r)
+	if err != nil {
+		return nil, err
+	}
+	return st.(Format4), nil
+}
+
+// VerifDecoderFormats lists the keys of the decoders map.
+func VerifDecoderFormats() []uint16 {
+	var out []uint16
+	for k := range decoders {
+		out = append(out, k)
+	}
+	return out
+}
